@@ -52,6 +52,63 @@ def reorderSysKeys {K : Type} (keys : List String) (p : Nat → Nat) (mats : Lis
 /-! ### driver -/
 open WB.IO WB.C04
 
+/-! ### the shift bookkeeping of `Rvectors` as a state (multi-step histories)
+
+  `shifts_left_red` and `shifts_right_red` are SEPARATE lists (indexed by Wannier function; an entry is the label of a
+  centre — the bookkeeping does not depend on the coordinates), `aliased` records whether the right array is the same
+  object as the left one (true for a freshly built `Rvectors`, false after `double_spin`, which allocates two arrays),
+  `hasRight` is the flag `has_shifts_right` (stays false), `centres` are the centres of the owning `System_R`. -/
+
+structure Shifts where
+  left : List Nat
+  right : List Nat
+  aliased : Bool
+  hasRight : Bool
+  centres : List Nat
+deriving DecidableEq, Repr
+
+inductive SOp where
+  | doubleSpin
+  | reorder (p : List Nat)
+
+/-- `new[0::2] = old; new[1::2] = old` -/
+def dupList (l : List Nat) : List Nat := l.flatMap (fun x => [x, x])
+
+/-- `arr[order]` -/
+def permList (l p : List Nat) : List Nat := p.map (fun i => l.getD i 0)
+
+/-- a freshly built system: both shift arrays are the centres, one object -/
+def Shifts.fresh (c : List Nat) : Shifts := ⟨c, c, true, false, c⟩
+
+/-- THE CODE: `System_R.double_spin` / `System_R.reorder` + `Rvectors.double_spin` / `Rvectors.reorder`
+    (reorder builds `shifts_left_red[order]` and `shifts_right_red[order]`, both, unconditionally) -/
+def stepShifts (s : Shifts) : SOp → Shifts
+  | .doubleSpin => { s with left := dupList s.left, right := dupList s.right, aliased := false, centres := dupList s.centres }
+  | .reorder p => { s with left := permList s.left p, right := permList s.right p, aliased := false,
+                           centres := permList s.centres p }
+
+def runShifts : Shifts → List SOp → Shifts
+  | s, [] => s
+  | s, op :: rest => runShifts (stepShifts s op) rest
+
+/-- a different rule (NOT the code): permute the left array in place and the right one only if `has_shifts_right`;
+    the right array follows only while it is the same object as the left one -/
+def stepShiftsFlag (s : Shifts) : SOp → Shifts
+  | .doubleSpin => { s with left := dupList s.left, right := dupList s.right, aliased := false, centres := dupList s.centres }
+  | .reorder p =>
+    let l := permList s.left p
+    { s with left := l, right := if s.hasRight then permList s.right p else if s.aliased then l else s.right,
+             centres := permList s.centres p }
+
+def runShiftsFlag : Shifts → List SOp → Shifts
+  | s, [] => s
+  | s, op :: rest => runShiftsFlag (stepShiftsFlag s op) rest
+
+/-- the law: both shift arrays are the centres of the system, function by function -/
+def ShiftsOk (s : Shifts) : Prop := s.left = s.centres ∧ s.right = s.centres
+
+instance (s : Shifts) : Decidable (ShiftsOk s) := by unfold ShiftsOk; infer_instance
+
 def ofListFn (l : List Nat) : Nat → Nat := fun i => l.getD i 0
 def ratFn (l : List Rat) : Nat → GRat := fun i => GRat.ofRat (l.getD i 0)
 def tabFn (l : List (List Rat)) : Nat → Nat → GRat := fun i j => GRat.ofRat ((l.getD i []).getD j 0)
@@ -86,6 +143,18 @@ def handle : List String → String
     match parseNat? n, parseRatss? ure, parseRatss? uim, parseRatss? xre, parseRatss? xim with
     | some n, some a, some b, some c, some d => showM n n (rotate GRat.conj n (mkM a b) (mkM c d))
     | _, _, _, _, _ => "bad-op"
+  -- shist centres ops   (ops separated by `|`:  d  = double_spin,  r:1,0,2 = reorder)  ->  left ; right ; centres
+  | ["shist", c, ops] =>
+    let parseOp (t : String) : Option SOp :=
+      if t = "d" then some SOp.doubleSpin else
+      match t.splitOn ":" with
+      | ["r", p] => (parseNats? p).map SOp.reorder
+      | _ => none
+    match parseNats? c, (if ops = "_" then some [] else (ops.splitOn "|").mapM parseOp) with
+    | some c, some ol =>
+      let s := runShifts (Shifts.fresh c) ol
+      showNats s.left ++ ";" ++ showNats s.right ++ ";" ++ showNats s.centres
+    | _, _ => "bad-op"
   | _ => "bad-op"
 
 end WB.C05
